@@ -15,6 +15,7 @@ import (
 	"crypto/tls"
 	"encoding/json"
 	"fmt"
+	"os"
 	"strings"
 	"sync"
 	"sync/atomic"
@@ -528,6 +529,9 @@ func main() {
 	repeat := 1
 	if run.Thorough() {
 		repeat = 5 // the racing order is decided by the Go scheduler: repeat to see more of its choices
+	}
+	if v := os.Getenv("C13_REPEAT"); v != "" {
+		fmt.Sscan(v, &repeat) // development aid (with --replay: the same case many times)
 	}
 	var jobs []any
 	var jobCases [][]Case
